@@ -47,7 +47,9 @@ def verus_part(out: Outcome, prop: str, decls, tag=None):
             try:
                 for what, ok, detail in structure.scan(d, dr.dumps[d.id]):
                     structural['n'] += 1
-                    if not ok:
+                    if not ok and what.startswith('UNDECIDED-IF-FALSE'):
+                        out.undecided.append('%s: %s — %s (Verus\' picture of the module may be incomplete)' % (d.id, what[19:], detail))
+                    elif not ok:
                         structural['failed'].append(('%s::structure(%s)' % (d.id, what), detail, d.id))
             except Exception as e:
                 out.undecided.append('%s: structural scan error %r' % (d.id, e))
@@ -326,6 +328,7 @@ def c16_part(out: Outcome, tier):
     decls = c16_decls(tier)
     dr = pipeline.build_dumps(decls, 'C16', features=('serde',))
     verus_decls, float_hs, float_decls = [], [], []
+    embed_decls = []
     by_id = {d.id: d for d in decls}
     for d in decls:
         txt = dr.dumps[d.id]
@@ -368,13 +371,8 @@ def c16_part(out: Outcome, tier):
                     float_decls.append(d)
             else:
                 d.c16.append(ent)
-        for what, ok in c16.read_embedding(txt, d):
-            out.obligations += 1
-            if ok:
-                out.discharged += 1
-            else:
-                out.failed.append({'key': '%s::embedding(%s)' % (d.id, what[:20]), 'backend': 'dump-read', 'message': what + ': NOT the case', 'detail': '', 'decl': d.id, 'decl_obj': d, 'witness': []})
-            out.bounded.append('structural read (not a proof): %s — %s' % (d.id, what)) if len(out.bounded) < 4 else None
+        if 'FromStr' in d.derives or 'Deserialize' in d.derives:
+            embed_decls.append(d)
         if d.family != 'float' and d.c16:
             verus_decls.append(d)
     # Verus lemmas (ints, strings): only the lemma obligations are counted for C16
@@ -385,6 +383,25 @@ def c16_part(out: Outcome, tier):
         verus_part(out, 'C16', verus_decls, tag='C16v')
     if float_hs:
         kani_side.kani_run_harnesses(out, 'C16', 'C16', float_decls, float_hs)
+    # embedding of the validation message in the FromStr / serde errors: decided by RUNNING the real
+    # code on boundary inputs (bounded, labelled), not by reading the text of the expansion
+    nrun = 0
+    for d in embed_decls[:6]:
+        import copy
+        dd = copy.copy(d)
+        try:
+            wit, wlog = witness.run_witness(dd)
+        except Exception as e:
+            wit, wlog = None, repr(e)
+        if wit is None:
+            out.undecided.append('%s: embedding run did not build: %s' % (d.id, (wlog or '')[-200:]))
+            continue
+        nrun += 1
+        bad = [w for w in wit if w.get('entry') == 'Embedding']
+        if bad:
+            out.failed.append({'key': '%s::embedding' % d.id, 'backend': 'concrete run (bounded)', 'message': 'the FromStr / serde error does not contain the validation error\'s Display text',
+                               'detail': json.dumps(bad[:3]), 'decl': d.id, 'decl_obj': d, 'witness': bad})
+    out.bounded.append('embedding of the validation message in FromStr/serde errors: concrete runs of the real code on boundary inputs for %d declarations (bounded, not counted)' % nrun)
     out.trusted.append('C16: the phrase -> relation table in vf/c16.py (reading of English) is trusted; unknown wording is undecided')
 
 
